@@ -298,6 +298,11 @@ func colClass(c proxyrig.ColSpec) string {
 
 // OpenWorld builds a keystore with keys for Owner and Other, the databases and one AcraServer per identity, and connects the owner to Acra and to the reference.
 func OpenWorld(r *ev.Run, tables []proxyrig.TableSpec, censorYAML string) (w *World, ac, rc *proxyrig.PGClient, closeAll func(), ok bool) {
+	return OpenWorldOn(r, tables, censorYAML, "")
+}
+
+// OpenWorldOn is OpenWorld with the bytea_output setting of the database behind Acra ("" = hex, "escape").
+func OpenWorldOn(r *ev.Run, tables []proxyrig.TableSpec, censorYAML, storeByteaOutput string) (w *World, ac, rc *proxyrig.PGClient, closeAll func(), ok bool) {
 	dir := ksrig.ScratchDir("pgw")
 	ks, err := ksrig.V1(dir, ksrig.RandBytes(32), keystore.InfiniteCacheSize)
 	if err != nil {
@@ -308,7 +313,7 @@ func OpenWorld(r *ev.Run, tables []proxyrig.TableSpec, censorYAML string) (w *Wo
 			panic(err)
 		}
 	}
-	pw, err := proxyrig.NewWorld(proxyrig.WorldOpts{Tables: tables, KS: ks, Clients: []string{owner, other, nokeys}, CensorYAML: censorYAML})
+	pw, err := proxyrig.NewWorld(proxyrig.WorldOpts{Tables: tables, KS: ks, Clients: []string{owner, other, nokeys}, CensorYAML: censorYAML, StoreByteaOutput: storeByteaOutput})
 	if err != nil {
 		r.Violation("rig: world could not be built (generated configuration rejected)", map[string]interface{}{"err": err.Error()})
 		return nil, nil, nil, func() {}, false
@@ -363,7 +368,13 @@ func AppEncryptable(c proxyrig.ColSpec) bool { return c.Kind == "enc" || c.Kind 
 
 func runSession(r *ev.Run, rng *gen.Rand, sidx int) {
 	tables := proxyrig.GenTables(rng, 1+rng.Intn(3), other, nil)
-	w, ac, rc, closeAll, ok := OpenWorld(r, tables, "")
+	// every fourth session runs against a database with bytea_output = escape (the reference keeps hex; replies are compared by value)
+	byteaOut := ""
+	if sidx%4 == 3 {
+		byteaOut = "escape"
+		r.Count("sessions_on_database_with_bytea_output_escape", 1)
+	}
+	w, ac, rc, closeAll, ok := OpenWorldOn(r, tables, "", byteaOut)
 	if !ok {
 		return
 	}
@@ -409,7 +420,7 @@ func RunStep(r *ev.Run, w *World, ac, rc *proxyrig.PGClient, st proxyrig.Step, h
 	r.Case()
 	logStart := w.Store.LogLen()
 	detail := func(extra map[string]interface{}) map[string]interface{} {
-		m := map[string]interface{}{"session": sidx, "schema": w.Schema, "history": history, "statement": st.SQL, "params": st.ParamDesc, "proto_detail": st.Detail, "proto": st.Proto, "param_format": st.ParamFmt, "result_format": st.ResFmt}
+		m := map[string]interface{}{"session": sidx, "schema": w.Schema, "history": history, "statement": st.SQL, "params": st.ParamDesc, "proto_detail": st.Detail, "proto": st.Proto, "param_format": st.ParamFmt, "result_format": st.ResFmt, "store_bytea_output": w.Store.ByteaOutput()}
 		for k, v := range extra {
 			m[k] = v
 		}
